@@ -984,6 +984,8 @@ def closed_check(res, pid, n):
         spec = dict(seed=rng.randrange(1 << 30), n=rng.choice([0, 1, 2, 3, 5, 8, 12]))
         if rng.random() < 0.25:
             spec['stop_after'] = rng.randrange(0, 6 * spec['n'] + 1)
+        if rng.random() < 0.5:
+            spec['bad'] = sorted(rng.sample(range(spec['n']), rng.randrange(0, spec['n'] + 1))) if spec['n'] else []
         if rng.random() < 0.6:
             spec['may_close'] = True
             spec['close_early'] = rng.choice([0.0, 0.02, 0.1])
@@ -997,8 +999,8 @@ def closed_check(res, pid, n):
     for r, o in zip(reqs, outs):
         steps += len(o['sched'])
         nmax += bool(o['maximal'])
-        terms.append('(%s, %d%%nat, %s, %s, %s, %s)' % (
-            cfg_coq(r['cfg']), r['closed']['n'], clist(o['sched'], sstep_coq), clist(o['events'], ev_coq),
+        terms.append('(%s, %d%%nat, %s, %s, %s, %s, %s)' % (
+            cfg_coq(r['cfg']), r['closed']['n'], clist(r['closed'].get('bad', []), cz), clist(o['sched'], sstep_coq), clist(o['events'], ev_coq),
             clist(o['obs'], obs_coq), cbool(o['maximal'])))
         if o['maximal']:
             last = o['obs'][-1] if o['obs'] else None
@@ -1008,7 +1010,8 @@ def closed_check(res, pid, n):
                 if len(last['jobs']) != accepted or (last['state'] == 0 and accepted != r['closed']['n']):
                     bad.append('%d jobs exist, %d calls were accepted, %d made' % (len(last['jobs']), accepted, r['closed']['n']))
                 for k, j in enumerate(last['jobs']):
-                    if not j['ready'] or j['val'] != ['ok', k] or j['cb'][0] != 1 or j['cb'][1] != 0:
+                    isbad = k in r['closed'].get('bad', ())
+                    if not j['ready'] or j['val'] != (['exc', k] if isbad else ['ok', k]) or j['cb'][0] != (0 if isbad else 1) or j['cb'][1] != (1 if isbad else 0):
                         bad.append('job %d: ready=%s value=%s callbacks=%s' % (k, j['ready'], j['val'], j['cb'][:2]))
                 if r['cfg']['putlocks'] and last['state'] == 0 and last['sem'][0] != last['sem'][1]:
                     bad.append('slots free %s of %s' % (last['sem'][0], last['sem'][1]))
